@@ -1,5 +1,5 @@
 """Property registry: which rules decide which property, and what each check claims."""
-import r_own, r_shrink, r_reach, r_layout, r_retain, r_num, r_index, r_growth, r_size, r_text, r_deleg, r_config
+import r_own, r_shrink, r_reach, r_layout, r_retain, r_num, r_index, r_growth, r_size, r_text, r_deleg, r_config, r_api
 
 RULE_DOC = {
     "R1": "no buffer access through a handle after it gave up its reference",
@@ -53,12 +53,15 @@ def rules_C03(ctx):
 
 def rules_C04(ctx):
     ctx.take_ts(["R1", "P2", "P3", "P4", "unclassified", "solver"])
+    r_api.rule_send_sync(ctx)
+    r_api.rule_witnesses(ctx)
 
 
 def rules_C05(ctx):
     ctx.take_ts(["R-erratomic", "R2", "unclassified", "solver"])
     r_own.rule_U1(ctx, include_panic=True, rule="U1P")
     r_layout.rule_null_checks(ctx)
+    r_api.rule_pairing(ctx)
 
 
 def rules_C02(ctx):
@@ -66,6 +69,8 @@ def rules_C02(ctx):
     # uniqueness probes license in-place writes only if the counter equals the number of handles:
     # the counter-balance rules are necessary conditions of isolation
     ctx.take_ts(["R2", "R3", "P1", "DUP"])
+    r_api.rule_api_surface(ctx)
+    r_api.rule_witnesses(ctx)
 
 
 def rules_C13(ctx):
